@@ -96,6 +96,7 @@ func dnfPairs(f *eng.Fn, e ast.Expr) (map[string]bool, bool) {
 
 func runC16(p *eng.Prog, r *eng.Report, tier string) {
 	c := &cx{p, r, tier}
+	c16TransformersStateless(c, "C16.8")
 	pk := p.Pkg("jid")
 	if pk == nil {
 		r.Unresolved("C16.1", "package jid")
@@ -629,4 +630,44 @@ func splitTop(s, sep string) []string {
 		}
 	}
 	return append(out, s[last:])
+}
+
+// c16TransformersStateless (C16.8, E-eff): jid.Escape and jid.Unescape are
+// package-level values that every goroutine shares. Their mapping types keep
+// no state: no method of escapeMapping / unescapeMapping assigns to a field of
+// its receiver, (fields that are only read are constants after construction).
+// A scratch buffer in the mapping ("avoid building a slice per escaped byte")
+// is written by concurrent Transform calls: '/' comes out as \22.
+func c16TransformersStateless(c *cx, id string) {
+	n := 0
+	for _, tn := range []string{"escapeMapping", "unescapeMapping"} {
+		pk := c.p.Pkg("jid")
+		if pk == nil {
+			continue
+		}
+		obj, _ := pk.Types.Scope().Lookup(tn).(*types.TypeName)
+		if obj == nil {
+			c.r.Unresolved(id, "type jid."+tn)
+			continue
+		}
+		nm := 0
+		for _, f := range c.allFns() {
+			if f.Body == nil || f.Sig() == nil || f.Sig().Recv() == nil {
+				continue
+			}
+			if rt := recvTypeName(f); rt == nil || rt != obj {
+				continue
+			}
+			nm++
+			for _, w := range f.Writes() {
+				if strings.HasPrefix(f.Norm(w.LHS, nil), "recv.") || strings.HasPrefix(f.Norm(w.LHS, nil), "recv[") {
+					n++
+					c.r.Check(id, f, "write to receiver state "+f.Norm(w.LHS, nil), "E-eff: no method of a shared mapping assigns to its receiver", w.Stmt.Pos(), false, "concurrent Transform calls on jid.Escape / jid.Unescape overwrite each other's scratch state")
+				}
+			}
+		}
+		n++
+		c.r.CheckNamed(id, "jid."+tn, "methods of the mapping type examined", "E-eff: the methods of the mapping behind a shared package-level transformer were found and scanned for writes to the receiver", obj.Pos(), nm >= 2, "fewer than two methods found")
+	}
+	c.r.Floor(id, "mapping types examined", n, 2)
 }
